@@ -23,12 +23,17 @@ OBLIGATIONS = [
     "NanoVerif.C02.use_placement",
     "NanoVerif.C02.regroup_perm",
     "NanoVerif.C14.copyRuns_eq_runs",
+    "NanoVerif.C12.svg_gids_stable",
+    "NanoVerif.C12.svg_glue_keeps_glyphs",
 ]
 DESIGN_REF = "DESIGN.md §5 C12"
 LEVEL_TEXT = ("Partial proof by composition + end-to-end exploration. The Lean obligations are the theorems the pipeline composes: the advance is preserved "
               "when width=0 and the viewBox carries it (incl. zero-advance glyphs), coverage-indexed arrays stay paired under the reordering that SVG "
-              "donation performs (C11 incl. rule completeness), the COLR->SVG step lemmas (C13) and the OT-SVG <use>/regroup lemmas (C02). NOT proved: "
-              "glue_together's table surgery itself. The property is explored on the REAL maximum_color CLI: nanoemoji-built COLRv0/COLRv1/picosvg fonts "
+              "donation performs (C11 incl. rule completeness), the COLR->SVG step lemmas (C13) and the OT-SVG <use>/regroup lemmas (C02); and "
+              "glue_together's own logic: the glyph order _copy_svg gives the target (Model/GlueSvg.lean, tied to the real function on generated "
+              "target/donor pairs) keeps every SVG glyph at the donor's glyph id when the donor's records ascend (svg_gids_stable) and is a "
+              "rearrangement of the target's glyphs (svg_glue_keeps_glyphs); _copy_cbdt's resharding into runs of consecutive target gids is C14's "
+              "copyRuns_eq_runs. NOT proved: the table copies themselves (fontTools objects), _copy_colr's glyph appending. The property is explored on the REAL maximum_color CLI: nanoemoji-built COLRv0/COLRv1/picosvg fonts "
               "and third-party-style COLRv1 fonts with GSUB/GPOS/GDEF lookups (mark, kerning, contextual) and two palettes, x {--bitmaps, "
               "--keep_glyph_names}: the output must keep the original colour table's picture, cmap, advances, outlines and the name-keyed meaning of "
               "every lookup; must gain the complementary table; COLR and SVG must paint the same picture for every colour glyph; must pass validFont.")
@@ -219,6 +224,97 @@ def compare(ctx, res, r):
             res.add_cex("output colour tables not evaluable: " + str(e), {"glyph": g}, site("eval"))
 
 
+def suite_copy_svg_model(ctx, res, n):
+    """Tie for Model/GlueSvg.lean `copySvgOrder` (theorems copySvg_places, copySvg_perm): the real glue_together._copy_svg on a target font and a donor
+    whose SVG table draws some of its glyphs — the glyph order the target ends up with (and the IndexError when the gaps cannot be filled)."""
+    import io as _io
+    from fontTools.fontBuilder import FontBuilder
+    from fontTools.pens.ttGlyphPen import TTGlyphPen
+    from fontTools import ttLib
+    from nanoemoji import glue_together
+
+    rng = ctx.rng
+
+    def mkfont(order):
+        fb = FontBuilder(1000, isTTF=True)
+        fb.setupGlyphOrder(order)
+        fb.setupCharacterMap({0x41 + i: g for i, g in enumerate(order) if g != ".notdef"})
+        pen = TTGlyphPen(None)
+        pen.moveTo((0, 0)); pen.lineTo((10, 0)); pen.lineTo((10, 10)); pen.closePath()
+        tri = pen.glyph()
+        fb.setupGlyf({g: tri for g in order})
+        fb.setupHorizontalMetrics({g: (500 + 10 * i, 0) for i, g in enumerate(sorted(order))})
+        fb.setupHorizontalHeader(ascent=800, descent=-200)
+        fb.setupNameTable({"familyName": "G", "styleName": "R"})
+        fb.setupOS2()
+        fb.setupPost()
+        b = _io.BytesIO()
+        fb.font.save(b)
+        from nanoemoji.util import load_fully
+        return load_fully(ttLib.TTFont(_io.BytesIO(b.getvalue()), lazy=False))
+
+    ops, reals, metas = [], [], []
+    for _ in range(n):
+        k = rng.randint(3, 9)
+        names = [".notdef"] + [f"g{i}" for i in range(k)]
+        target_order = [".notdef"] + rng.sample(names[1:], k)
+        # the donor: the same glyphs in another order (nanoemoji restructures the order), an SVG table over some of them
+        donor_order = [".notdef"] + rng.sample(names[1:], k)
+        m = rng.randint(1, k)
+        gids = sorted(rng.sample(range(1, k + 1), m))
+        if rng.random() < 0.15:
+            # the donor has glyphs the target lacks, in front of its colour glyphs: the target cannot fill the gaps (IndexError in `pop`)
+            extra = [f"x{i}" for i in range(rng.randint(1, 3))]
+            donor_order = [".notdef"] + extra + donor_order[1:]
+            gids = [g + len(extra) for g in gids]
+        if rng.random() < 0.15:
+            rng.shuffle(gids)            # document records out of glyph order: a table C07 rejects — what does the gluing do with it?
+        # group consecutive gids into multi-glyph documents now and then
+        docs, i = [], 0
+        while i < len(gids):
+            j = i
+            while j + 1 < len(gids) and gids[j + 1] == gids[j] + 1 and rng.random() < 0.5:
+                j += 1
+            docs.append((gids[i], gids[j]))
+            i = j + 1
+        target, donor = mkfont(target_order), mkfont(donor_order)
+        svg = ttLib.newTable("SVG ")
+        svg.docList = [("<svg/>", a, b) for a, b in docs]
+        donor["SVG "] = svg
+        try:
+            svg_glyphs = list(glue_together._svg_glyphs(donor))
+        except Exception:  # noqa  (gid beyond the donor's glyph count)
+            svg_glyphs = None
+        try:
+            glue_together._copy_svg(target, donor)
+            real = list(target.getGlyphOrder())
+        except IndexError:
+            real = None
+        except Exception as e:  # noqa
+            real = "EXC:" + type(e).__name__
+        if svg_glyphs is None:
+            continue
+        ops.append({"op": "copy-svg-order", "target": target_order, "svg": [[str(g), nm] for g, nm in svg_glyphs]})
+        reals.append(real)
+        metas.append({"target": target_order, "donor": donor_order, "docs": docs})
+    for meta, real, m in zip(metas, reals, ctx.driver.run(ops)):
+        asc = all(a < b for a, b in zip([d[0] for d in meta["docs"]], [d[0] for d in meta["docs"]][1:]))
+        res.count(key=("copy-svg", stable_hash(meta)), nontrivial=len(meta["docs"]) >= 2)
+        res.stat("copy-svg:" + ("indexerror" if real is None else "exc" if isinstance(real, str) else "ascending" if asc else "unordered-docs"))
+        if isinstance(real, str) or m.get("order") != real:
+            res.add_tie_break("glue_together._copy_svg glyph order vs Model copySvgOrder", meta, m, real)
+        # the property's side, on the real result: with document records in glyph order every SVG glyph keeps the donor's glyph id
+        if isinstance(real, list) and asc:
+            for a, b in meta["docs"]:
+                for gid in range(a, b + 1):
+                    if gid >= len(real) or real[gid] != meta["donor"][gid]:
+                        res.add_cex(f"after _copy_svg the glyph the donor's SVG table draws at glyph id {gid} ({meta['donor'][gid]}) is at another id in the target",
+                                    {"call": "glue_together._copy_svg", "case": meta, "new_order": real}, {"site": "c12-copy-svg", "case": stable_hash(meta)})
+                        break
+            if sorted(real) != sorted(meta["target"]):
+                res.add_cex("_copy_svg changed the target's glyph set", {"case": meta, "new_order": real}, {"site": "c12-copy-svg-set", "case": stable_hash(meta)})
+
+
 def suite(ctx, res, n):
     kinds = ["colr1", "third-party", "colr0", "picosvg", "third-party", "colr1"]
     jobs = []
@@ -257,10 +353,13 @@ def run(ctx, res):
     nano.init()
     res.rule = ("inputs: nanoemoji-built glyf_colr_1 / glyf_colr_0 / picosvg fonts from the C01 generator, and feaLib-built fonts with mark/kern/contextual "
                 "lookups + colorLib COLRv1 graphs + 1-2 palettes; options keep_glyph_names on (off every 5th), --bitmaps every 7th; every run non-trivial")
+    suite_copy_svg_model(ctx, res, ctx.budget(60, 1200))
     suite(ctx, res, ctx.budget(8, 90))
 
 
 def search(ctx, res, broken):
+    nano.init()
+    suite_copy_svg_model(ctx, res, 600)
     suite(ctx, res, 24)
 
 
